@@ -60,9 +60,10 @@ def conv(v):
 
 
 ELSEWHERE = {'preamble': ['type', 'format', 'version'],
-             'meta': ['type', 'mimetype', 'version'],
-             'diff': ['mimetype', 'format', 'version'],
-             'container': ['mimetype', 'type', 'format']}
+             'meta': ['type', 'mimetype', 'version', 'indent'],
+             'diff': ['mimetype', 'format', 'version', 'indent'],
+             'container': ['mimetype', 'type', 'format', 'indent',
+                           'line_endings']}
 
 
 def check_extension(data, layout, base_recs, plan, obs):
@@ -106,9 +107,40 @@ def check_extension(data, layout, base_recs, plan, obs):
         obs.violation('unknown_option_changed_output:%s' % d[0], case, d[1])
 
 
+def dom_attribute_keys():
+    """Names of public attributes / methods of the object-model classes that
+    are also grammatical option keys: as header options they are just
+    unknown options."""
+    import re
+    from pydiffx.dom import DiffX
+    from pydiffx.dom import objects
+    names = set()
+    for cls in (DiffX, objects.DiffXChangeSection, objects.DiffXFileSection):
+        names.update(n for n in dir(cls) if not n.startswith('_') and
+                     re.match(r'^[A-Za-z][A-Za-z0-9_-]*$', n))
+    return sorted(names - {'encoding', 'version', 'length', 'indent',
+                           'line_endings', 'mimetype', 'format', 'type'})
+
+
 def run(ctx):
     obs = ctx.obs
     rng = ctx.rng
+    dom_keys = dom_attribute_keys()
+    for k in range(ctx.share(ctx.pick(600, 12000))):
+        doc, st, data, layout, tag = gen_foreign(rng)
+        if len(data) > 8000:
+            continue
+        base, exc, _ = common.read_records(data)
+        if exc is not None:
+            continue
+        conts = [i for i, sct in enumerate(layout) if 'coff' not in sct]
+        hi = rng.choice(conts)
+        key = rng.choice(dom_keys)
+        val = rng.choice(['text/markdown', '4', 'latin1', 'json', 'x', '0',
+                          'utf-16', 'dos'])
+        obs.count('dom_attribute_name_options')
+        check_extension(data, layout, base,
+                        {hi: ([(key, val)], rng.randint(0, 3))}, obs)
     n = ctx.share(ctx.pick(8000, 150000))
     for k in range(n):
         doc, st, data, layout, tag = gen_foreign(rng)
